@@ -89,7 +89,7 @@ def run(tier, seed):
     only = os.environ.get('VF_ONLY')
     if only:
         jobs = [j for j in jobs if re.search(only, j[2])]
-    tmo = 90 if tier == 'quick' else 900
+    tmo = 400 if tier == 'quick' else 1800     # the 3-D -> 2-D Navier-Stokes energy reduction needs ~60-90 s on a busy machine
 
     def work(j):
         hn, fn, disp, meta = j
